@@ -10,7 +10,7 @@ use std::collections::HashMap;
 
 pub const LEVEL: &str = "exploration";
 pub const EXHAUSTIVE: bool = true;
-pub const RULE: &str = "enumerated completely: every key of emojicon's emoticon table (phonetic, bare; fixed Probhat, bare), every English emoji name (phonetic) and every Bengali emoji name (fixed: Probhat and the synthetic layout, suggestions on) each bare and in 5 punctuation wrappers incl. quotes, English option both ways, smart quotes on; thorough additionally after a warm-up word and under traditional joining. Entries a method cannot type (character outside the 94 ASCII keys / not producible by the layout) are counted and listed, not failed. Oracle: emoticon => its emoji is a candidate, and in phonetic mode the literal text too; name => wrapper'.e.wrapper' is a candidate for every emoji e of the entry, in table order relative to each other (fixed mode: the first k table emoji for the largest k the 9-candidate cap allows); non-disturbance: removing the emoji (and the raw literal) leaves exactly the list of an ANSI twin (phonetic) / a prefix of it (fixed, the cap). Non-trivial: every typeable table entry; distinct by (method, entry, wrapper, English).";
+pub const RULE: &str = "enumerated completely: every key of emojicon's emoticon table (phonetic, bare; fixed Probhat, bare), every English emoji name (phonetic) and every Bengali emoji name (fixed: Probhat and the synthetic layout, suggestions on) each bare and in 5 punctuation wrappers incl. quotes, English option both ways (the English-on context is created under ANSI and re-configured by update-engine before use), smart quotes on; thorough additionally after a warm-up word and under traditional joining. Entries a method cannot type (character outside the 94 ASCII keys / not producible by the layout) are counted and listed, not failed. Oracle: emoticon => its emoji is a candidate, and in phonetic mode the literal text too; name => wrapper'.e.wrapper' is a candidate for every emoji e of the entry, in table order relative to each other (fixed mode: the first k table emoji for the largest k the 9-candidate cap allows); non-disturbance: removing the emoji (and the raw literal) leaves exactly the list of an ANSI twin (phonetic) / a prefix of it (fixed, the cap). Non-trivial: every typeable table entry; distinct by (method, entry, wrapper, English).";
 pub const ASSUMPTIONS: &[&str] = &[
     "emojicon::internal tables are the bundled tables",
     "the nine-candidate cap of C15 wins over 'offers all emoji' in fixed mode (pinned by riti's test_emojis)",
@@ -37,9 +37,22 @@ struct Phon {
     ansi: Ctx,
 }
 
+/// A context that was created under ANSI and re-configured while idle ("outside ANSI mode" is about the
+/// configuration in force, not about how the context started): the English-on context of every
+/// triple is made this way.
+fn created_under_ansi(opts: Opts, sb: &Sandbox) -> Ctx {
+    let mut first = opts;
+    first.ansi = true;
+    let mut c = Ctx::new(first, sb).unwrap();
+    let _ = c.type_text("k");
+    let _ = c.finish();
+    c.update(opts, sb).unwrap();
+    c
+}
+
 fn mk_phon() -> Phon {
     let sb = Sandbox::new();
-    Phon { plain: Ctx::new(Opts::parse("sq"), &sb).unwrap(), english: Ctx::new(Opts::parse("sqe"), &sb).unwrap(), ansi: Ctx::new(Opts::parse("sqa"), &sb).unwrap(), _sb: sb }
+    Phon { plain: Ctx::new(Opts::parse("sq"), &sb).unwrap(), english: created_under_ansi(Opts::parse("sqe"), &sb), ansi: Ctx::new(Opts::parse("sqa"), &sb).unwrap(), _sb: sb }
 }
 
 fn type_list(ctx: &Ctx, text: &str, warm: Option<&str>, case: &dyn Fn() -> Value) -> Result<Vec<String>, Failure> {
@@ -136,7 +149,7 @@ fn mk_fixed(layout: Layout, kar: bool) -> Fixed {
         layout,
         inv: layout_inverse(layout),
         plain: Ctx::new(Opts::parse(&format!("{base}{k}")), &sb).unwrap(),
-        english: Ctx::new(Opts::parse(&format!("{base}{k}e")), &sb).unwrap(),
+        english: created_under_ansi(Opts::parse(&format!("{base}{k}e")), &sb),
         ansi: Ctx::new(Opts::parse(&format!("{base}{k}a")), &sb).unwrap(),
         _sb: sb,
     }
